@@ -346,13 +346,25 @@ func collLen(v *Val) int {
 	if v == nil {
 		return 0
 	}
+	// elements that carry nothing (null, or collections of nulls only) do
+	// not count: the renderings of a disabled or empty mapped call (null,
+	// [], [null, null]) must be indistinguishable to every library function
+	n := 0
 	switch v.K {
 	case VArr:
-		return len(v.A)
+		for _, e := range v.A {
+			if !e.NullLike() {
+				n++
+			}
+		}
 	case VObj:
-		return len(v.O)
+		for _, e := range v.O {
+			if !e.NullLike() {
+				n++
+			}
+		}
 	}
-	return 0
+	return n
 }
 
 // genValue builds the value GEN produces for an output of type t from n.
